@@ -397,7 +397,7 @@ extern "C" int LLVMFuzzerTestOneInput(const uint8_t *data, size_t size)
     g_counters[7]++;
     bool ok = false;
     for (const QString &full : r.full)
-        ok = ok || refpattern::boundedMatch(got, full, r.budget, r.keepPrefix, r.keepSuffixFrom);
+        ok = ok || refpattern::boundedMatchMasked(got, full, r.fullMask, r.budget, r.keepPrefix, r.keepSuffixFrom);
     if (!ok)
         violation("PatternFormatter output removes more than the optional-attribute windows allow", pattern + " || msg=" + msg, got + " || full=" + r.full.value(0));
     return 0;
